@@ -7,11 +7,21 @@ From HK Require Import Model.Attempts Proofs.AttemptsProofs.
 Import ListNotations.
 Open Scope Z_scope.
 
-(** the log after any sequence of operations is exactly the attempts recorded, in order: recording is
-    append-only, listing changes nothing, and no number of later attempts pushes an earlier one out *)
-Theorem C13_attempt_log_is_what_was_recorded : forall ops log,
-  log_after log ops = log ++ recorded ops.
-Proof. exact log_after_recorded. Qed.
+(** the log only grows: whatever operations follow - any number of further attempts, listings, refused
+    duplicates - everything that was in the log is still there, unchanged and in place *)
+Theorem C13_attempt_log_is_append_only : forall ops log,
+  exists ext, log_after log ops = log ++ ext.
+Proof. exact log_after_ext. Qed.
+
+(** RecordAttempt either appends exactly the (normalised) attempt, or - when its non-blank id is already in the log -
+    fails and changes nothing; non-blank ids therefore stay unique *)
+Theorem C13_record_appends_or_refuses_a_duplicate_id : forall log a,
+  (dup_id log a = false -> record log a = (log ++ [norm a], true))
+  /\ (dup_id log a = true -> record log a = (log, false)).
+Proof. intros log a. split; [apply record_fresh|apply record_dup]. Qed.
+
+Theorem C13_attempt_ids_stay_unique : forall ops log, ids_unique log -> ids_unique (log_after log ops).
+Proof. exact log_after_unique. Qed.
 
 (** a listing is the newest [limit] of the attempts matching every criterion: the listed ones and the
     left-out ones together are exactly the matching ones, every listed one is at least as new as every
@@ -26,10 +36,11 @@ Theorem C13_list_attempts_is_the_newest_matching : forall log q,
   /\ (forall a, In a r -> In a log /\ matches q a = true).
 Proof. exact list_attempts_spec. Qed.
 
-(** an attempt once recorded is listed by every later query it matches, as long as the matching attempts do
+(** an attempt once accepted is listed by every later query it matches, as long as the matching attempts do
     not exceed the limit - whatever was recorded before and after it *)
 Theorem C13_recorded_attempt_stays_listed : forall log0 ops1 a ops2 q,
   let log := log_after log0 (ops1 ++ ARec a :: ops2) in
+  snd (record (log_after log0 ops1) a) = true ->
   matches q (norm a) = true ->
   (length (filter (matches q) log) <= eff_limit q)%nat ->
   In (norm a) (list_attempts log q).
@@ -41,11 +52,20 @@ Example C13_attempt_example :
   let a := mkAtt 9999999 7 1 10 1 503 0 1600000000000000000 in
   let q := mkAReq 0 0 7 0 10 None in
   let log := log_after [] ([ARec a; AGen 0 12000]) in
-  Z.of_nat (length log) = 12001 /\ matches q (norm a) = true
+  Z.of_nat (length log) = 12001 /\ snd (record [] a) = true /\ matches q (norm a) = true
   /\ (length (filter (matches q) log) <= eff_limit q)%nat
   /\ map a_event (list_attempts log q) = [7%N].
 Proof. vm_compute. repeat split; intros; discriminate || reflexivity || (now apply Nat.leb_le). Qed.
 
-Print Assumptions C13_attempt_log_is_what_was_recorded.
+(** non-vacuity of the refusal: the second attempt under id 5 is refused, the log keeps the first *)
+Example C13_attempt_duplicate_example :
+  let a := mkAtt 5 1 1 1 1 (-7) 1 1700000000000000000 in
+  let b := mkAtt 5 2 1 1 2 200 2 1700000000000000001 in
+  arun [] [ARec a; ARec b; AList (mkAReq 0 0 0 0 0 None)] = [[-1]; enc_att (norm a)].
+Proof. vm_compute. reflexivity. Qed.
+
+Print Assumptions C13_attempt_log_is_append_only.
+Print Assumptions C13_record_appends_or_refuses_a_duplicate_id.
+Print Assumptions C13_attempt_ids_stay_unique.
 Print Assumptions C13_list_attempts_is_the_newest_matching.
 Print Assumptions C13_recorded_attempt_stays_listed.
